@@ -98,20 +98,25 @@ def check_tables(rep, F):
               "CGMoleculeDef::ParseBeads symmetry table is %s (other values throw: %s)" % (sym, thr), pb.loc(), sample=True)
     cm = F.one(C + "CGMoleculeDef::CreateMap")
     rep.analysed(cm)
-    sw = [n for n in cm.walk() if n.get("k") == "switch"]
+    from vsa.cases import executes as _ex
     tab = {}
-    if len(sw) == 1:
-        label = None
-        for st in sw[0]["body"]["stmts"]:
-            while st.get("k") in ("case", "default"):
-                label = str(st.get("ivalue")) if st["k"] == "case" else "default"
-                st = st["sub"]
-            txt = nows(show(unwrap(st))) if st.get("k") != "break" else ""
-            m = re.search(r"CreateBeadMap\((?:votca::csg::)?(?:BeadMapType::)?(\w+)\)", txt)
-            if m and label:
-                tab[label] = m.group(1)
-            if unwrap(st).get("k") == "throw" and label:
-                tab[label] = "throw"
+    nthrow = {}
+    for label, val in (("1", 1), ("3", 3), ("default", 2)):
+        def sym_atom(fold, n, env, val=val):
+            if n.get("k") == "member" and n.get("fname") == "symmetry_":
+                return sp.Integer(val)
+            return NotImplemented
+        fcm = Fold(cm, atom=sym_atom, record_calls=r"Map::CreateBeadMap$").run()
+        calls_ = [e for e in fcm.events if e["kind"] == "call"]
+        thr_ = [e for e in fcm.events if e["kind"] == "throw" and "symmetry" not in "" and any(isinstance(g_[0], tuple) and g_[0] and g_[0][0] == "loop" for g_ in e["guards"])]
+        nthrow.setdefault(label, len(thr_))
+        sure = label == "default" and nthrow.get("default", 0) == nthrow.get("1", -9) + 1
+        if len(calls_) == 1 and not isinstance(calls_[0]["args"][0], (tuple, Matrix)):
+            tab[label] = str(calls_[0]["args"][0]).split("::")[-1]
+        elif not calls_ and sure:
+            tab[label] = "throw"
+        else:
+            tab[label] = "?%d calls/%d throws" % (len(calls_), len(sure))
     rep.check(tab == {"1": "Spherical", "3": "Ellipsoidal", "default": "throw"}, "R1.6", "symmetry|map", "symmetry 1 -> Map_Sphere, 3 -> Map_Ellipsoid, else throw",
               "CGMoleculeDef::CreateMap symmetry table is %s" % tab, cm.loc(), sample=True)
     fm = [f for f in F.funcs if f.qname == C + "Map::CreateBeadMap"]
@@ -271,61 +276,58 @@ def check_apply(rep, f):
             ok = str(getattr(v, "func", "")).startswith("SUM_") and re.match(r"^getMass\(\w+\.in_\)$", str(v.args[0])) is not None
         rep.check(ok, "R1.2", "setMass|Map_Sphere", "mass = SUM getMass(parent)", "Map_Sphere::Apply: mass passed to setMass is %s, not the plain sum of parent masses"
                   % (str(es[0]["args"][0])[:200] if es else "missing"), f.loc(es[0]["node"] if es else None), sample=True)
-    # ---- R1.4 half-box guard
-    thr = fo.throws
+    # ---- R1.4 half-box guard: decided on the path conditions of the throw and of setPos (helpers inlined)
+    from vsa.cases import decision_table
+    bcn = f.j["params"][0]["name"]
+    half = Fn("getShortestBoxDimension")(S(bcn)) / 2
+    found = {}
+
+    def classify(lf):
+        if isinstance(lf, tuple) and len(lf) == 3:
+            a_, b_ = lf[1], lf[2]
+            if lf[0] in ("==", "!=") and "getBoxType(%s)" % bcn in (str(a_), str(b_)) and (str(a_).endswith("typeOpen") or str(b_).endswith("typeOpen")):
+                return ("OPEN", lf[0] == "==")
+            if lf[0] in ("<", "<=", ">", ">=") and not isinstance(a_, (Matrix, tuple)) and not isinstance(b_, (Matrix, tuple)):
+                if equal(b_, half):
+                    found["mx"] = a_
+                    return {">": ("BIG", True), "<=": ("BIG", False)}.get(lf[0])
+                if equal(a_, half):
+                    found["mx"] = b_
+                    return {"<": ("BIG", True), ">=": ("BIG", False)}.get(lf[0])
+        return None
+    thr_ev = [e for e in fo.events if e["kind"] == "throw"]
     ok, why = False, "no throw found"
-    for g in thr:
-        gs = [(c, pol) for c, pol, _ in g]
-        if len(gs) != 2:
-            why = "throw guarded by %s" % guard_strs(fo, g)
+    for e in thr_ev:
+        names, rows = decision_table(e, classify, getattr(fo, "conds", {}))
+        if rows is None or not {"OPEN", "BIG"} <= set(names):
+            why = "the throw depends on %s, not on (box type is open, running maximum > half the shortest box dimension)" % names
             continue
-        (c1, p1), (c2, p2) = gs
-        box_ok = isinstance(c1, tuple) and c1[0] == "!=" and p1 and str(c1[1]) == "getBoxType(%s)" % f.j["params"][0]["name"] and str(c1[2]).endswith("typeOpen")
-        cmp_ok = isinstance(c2, tuple) and c2[0] == ">" and p2 and equal(c2[2], Fn("getShortestBoxDimension")(S(f.j["params"][0]["name"])) / 2)
-        if not box_ok:
-            why = "the half-box test is skipped under %s, not exactly for open boxes" % fo.cond_str(c1)
+        bad = [(a_, h_) for a_, h_ in rows if h_ is None or h_ != ((not a_["OPEN"]) and a_["BIG"])]
+        if bad:
+            why = "for %s the mapping %s" % (bad[0][0], "throws" if bad[0][1] else "does not throw") + \
+                  ("; the half-box test is skipped under another condition than 'box is open'" if True else "")
             continue
-        if not cmp_ok:
-            why = "the comparison is %s, required max_dist > 0.5*getShortestBoxDimension()" % fo.cond_str(c2)
-            continue
-        mx = c2[1]
-        # maximum over the same BC norms as the sum
-        s = str(mx)
+        mx = found.get("mx")
         kk = used_bc + 1 if used_bc is not None else -1
         nrm = "sqrt(BC%d.x**2 + BC%d.y**2 + BC%d.z**2)" % (kk, kk, kk)
-        if not str(getattr(mx, "func", "")).startswith("LOOP_") or nrm not in s:
-            why = "the tested distance %s is not the running maximum of |BC(r0, pos)| over the summed parents" % s[:300]
+        if mx is None or not str(getattr(mx, "func", "")).startswith("LOOP_") or nrm not in str(mx):
+            why = "the tested distance %s is not the running maximum of |BC(r0, pos)| over the summed parents" % str(mx)[:300]
             continue
         body = mx.args[1]
-        if "> max_bead_dist" not in str(body) and "> acc" not in str(body) and ">" not in str(body):
+        if ">" not in str(body):
             why = "running maximum idiom not recognised: %s" % str(body)[:200]
             continue
         ok = True
         break
-    rep.check(ok, "R1.4", "halfbox-guard|" + cls, "throw when max |BC(r0,pos)| > 0.5*shortest box dimension, unless the box is open",
+    rep.check(ok, "R1.4", "halfbox-guard|" + cls, "throw exactly when max |BC(r0,pos)| > 0.5*shortest box dimension and the box is not open",
               "%s::Apply: %s" % (cls, why), f.loc(), sample=True)
-    # PATH: comparison guards every path to setPos
-    g = CFG(f)
-    cmpb = boxb = None
-    for b in g.blocks:
-        cn = g.cond_node(b)
-        if cn is None:
-            continue
-        cn = unwrap(cn)
-        if cn.get("k") == "binop" and cn["op"] == ">" and "max" in show(cn) and g.term(b)["class"] == "IfStmt":
-            if any(x.get("k") == "throw" for s in [g.succs[b][0]] if s is not None for e in g.elems[s] if isinstance(e, int) for x in [f.nodes.get(e)] if x) \
-               or g.is_throw_block(g.succs[b][0]):
-                cmpb = b
-        if cn.get("k") == "binop" and cn["op"] == "!=" and "getBoxType" in show(cn):
-            boxb = b
-    setpos_node = sp_[0]["node"]
-    ok = False
-    if cmpb is not None and boxb is not None and setpos_node["id"] in g.where:
-        sb = g.where[setpos_node["id"]][0]
-        reach2 = g.reaches([g.entry], avoid={cmpb, boxb})
-        true_succ = g.succs[boxb][0]
-        ok = sb not in reach2 and cmpb in g.reaches([true_succ]) and g.dominates_block(boxb, cmpb)
-    rep.check(ok, "R1.4", "halfbox-path|" + cls, "every path to setPos passes the box-type test and, for periodic boxes, the half-box comparison",
+    # setPos is only reached when the test passed
+    okp = False
+    if sp_:
+        names, rows = decision_table(sp_[0], classify, getattr(fo, "conds", {}))
+        okp = rows is not None and {"OPEN", "BIG"} <= set(names) and all(not (h_ is True) for a_, h_ in rows if (not a_["OPEN"]) and a_["BIG"]) \
+            and any(h_ is True for a_, h_ in rows)
+    rep.check(okp, "R1.4", "halfbox-path|" + cls, "setPos is never reached with a periodic box and a parent farther than half the shortest box dimension",
               "%s::Apply: a path reaches out_->setPos without passing the half-box comparison" % cls, loc)
 
 
